@@ -111,7 +111,22 @@ func (r *Replica) TakeSnap(ctx sdk.Context, w *World, prev *Snap, extraAddrs []s
 		*s = *prev
 		s.H = ctx.BlockHeight()
 	}
-	if all || r.Dirty["order"] {
+	changed := func(n string) bool {
+		if all {
+			r.lastHash[n] = r.rawHash(ctx, n)
+			return true
+		}
+		if !r.Dirty[n] {
+			return false
+		}
+		h := r.rawHash(ctx, n)
+		if h == r.lastHash[n] {
+			return false
+		}
+		r.lastHash[n] = h
+		return true
+	}
+	if changed("order") {
 		p := &OrderPart{Orders: map[uint64]ordertypes.Order{}, Shards: map[uint64]ordertypes.Shard{}}
 		for _, o := range a.OrderKeeper.GetAllOrder(ctx) {
 			p.Orders[o.Id] = o
@@ -123,7 +138,7 @@ func (r *Replica) TakeSnap(ctx sdk.Context, w *World, prev *Snap, extraAddrs []s
 		p.ShardCount = a.OrderKeeper.GetShardCount(ctx)
 		s.Order = p
 	}
-	if all || r.Dirty["model"] {
+	if changed("model") {
 		p := &ModelPart{Metas: map[string]modeltypes.Metadata{}, Models: map[string]string{}, Expired: map[uint64][]string{}}
 		for _, m := range a.ModelKeeper.GetAllMetadata(ctx) {
 			p.Metas[m.DataId] = m
@@ -136,7 +151,7 @@ func (r *Replica) TakeSnap(ctx sdk.Context, w *World, prev *Snap, extraAddrs []s
 		}
 		s.Model = p
 	}
-	if all || r.Dirty["sao"] {
+	if changed("sao") {
 		p := &SaoPart{Timeouts: map[uint64][]uint64{}, Expired: map[uint64][]uint64{}}
 		for _, t := range a.SaoKeeper.GetAllTimeoutOrder(ctx) {
 			p.Timeouts[t.Height] = t.OrderList
@@ -146,7 +161,7 @@ func (r *Replica) TakeSnap(ctx sdk.Context, w *World, prev *Snap, extraAddrs []s
 		}
 		s.Sao = p
 	}
-	if all || r.Dirty["node"] {
+	if changed("node") {
 		p := &NodePart{Nodes: map[string]nodetypes.Node{}, Pledges: map[string]nodetypes.Pledge{}, Debts: map[string]sdk.Coin{},
 			Faults: map[string]nodetypes.Fault{}, FaultIdx: map[string]string{}, Fishing: map[string]string{}, Round: -1, RawOther: map[string]string{}}
 		for _, n := range a.NodeKeeper.GetAllNode(ctx) {
@@ -187,14 +202,14 @@ func (r *Replica) TakeSnap(ctx sdk.Context, w *World, prev *Snap, extraAddrs []s
 		it.Close()
 		s.Node = p
 	}
-	if all || r.Dirty["market"] {
+	if changed("market") {
 		p := &MarketPart{Workers: map[string]markettypes.Worker{}}
 		for _, wk := range a.MarketKeeper.GetAllWorker(ctx) {
 			p.Workers[wk.Workername] = wk
 		}
 		s.Market = p
 	}
-	if all || r.Dirty["did"] {
+	if changed("did") {
 		p := &DidPart{AccountLists: map[string][]string{}, AccountAuths: map[string]didtypes.AccountAuth{}, AccountIds: map[string]string{},
 			Dids: map[string]string{}, Kids: map[string]string{}, PayAddrs: map[string]string{}, SidDocs: map[string]didtypes.SidDocument{},
 			SidVersions: map[string][]string{}, PastSeeds: map[string][]string{}, Balances: map[string]sdk.Coin{}}
@@ -230,7 +245,7 @@ func (r *Replica) TakeSnap(ctx sdk.Context, w *World, prev *Snap, extraAddrs []s
 		}
 		s.Did = p
 	}
-	if all || r.Dirty["bank"] {
+	if changed("bank") {
 		p := &BankPart{Bal: map[string]sdk.Int{}}
 		for _, ac := range w.Actors {
 			p.Bal[ac.AddrS] = a.BankKeeper.GetBalance(ctx, ac.Addr, Denom).Amount
@@ -248,7 +263,7 @@ func (r *Replica) TakeSnap(ctx sdk.Context, w *World, prev *Snap, extraAddrs []s
 		p.Supply = a.BankKeeper.GetSupply(ctx, Denom).Amount
 		s.Bank = p
 	}
-	if all || r.Dirty["staking"] {
+	if changed("staking") {
 		p := &StakingPart{Vals: map[string]stakingtypes.Validator{}, Dels: map[string]stakingtypes.Delegation{}}
 		for _, v := range a.StakingKeeper.GetAllValidators(ctx) {
 			p.Vals[v.OperatorAddress] = v
@@ -259,6 +274,28 @@ func (r *Replica) TakeSnap(ctx sdk.Context, w *World, prev *Snap, extraAddrs []s
 		s.Stk = p
 	}
 	return s
+}
+
+// rawHash fingerprints the raw content of a store (FNV-1a over keys and values).
+func (r *Replica) rawHash(ctx sdk.Context, n string) uint64 {
+	h := uint64(14695981039346656037)
+	it := ctx.KVStore(r.App.GetKey(n)).Iterator(nil, nil)
+	for ; it.Valid(); it.Next() {
+		for _, b := range it.Key() {
+			h ^= uint64(b)
+			h *= 1099511628211
+		}
+		h ^= 0xff
+		h *= 1099511628211
+		for _, b := range it.Value() {
+			h ^= uint64(b)
+			h *= 1099511628211
+		}
+		h ^= 0xfe
+		h *= 1099511628211
+	}
+	it.Close()
+	return h
 }
 
 func hasPrefix(s, p string) bool { return len(s) >= len(p) && s[:len(p)] == p }
